@@ -397,6 +397,9 @@ func (ev *SpecEval) callSpec(e *SExpr) SVal {
 	case "deref": // deref(p): the struct a pointer refers to
 		v := ev.eval(e.Args[0])
 		p := v.T.Underlying().(*types.Pointer)
+		if kindOf(p.Elem()) != "struct" {
+			return SVal{V: ev.cur.load(ev.rvalue(v).(*Term), p.Elem()), T: p.Elem()}
+		}
 		return SVal{Loc: ev.rvalue(v).(*Term), T: p.Elem()}
 	case "tagof":
 		v := ev.rvalue(ev.eval(e.Args[0])).(IfaceV)
@@ -410,6 +413,35 @@ func (ev *SpecEval) callSpec(e *SExpr) SVal {
 	case "base":
 		v := ev.rvalue(ev.eval(e.Args[0])).(SliceV)
 		return SVal{V: v.Base, T: types.Typ[types.UnsafePointer]}
+	case "isClosure": // isClosure(fnvalue, "pkg.Func$1", binding...)
+		fv := ev.term(e.Args[0])
+		if len(e.Args) < 2 || e.Args[1].Kind != "str" {
+			ev.fail("isClosure(f, \"name\", bindings...)")
+		}
+		var alts []*Term
+		for id, c := range ev.vc.closures {
+			if ev.vc.prog.shortName(c.Fn) != e.Args[1].Name || len(c.Bindings) != len(e.Args)-2 {
+				continue
+			}
+			cs := []*Term{Eq(fv, IntLit(id))}
+			for i, b := range c.Bindings {
+				want := ev.rvalue(ev.eval(e.Args[i+2]))
+				// captured variables are bound by reference: compare the content of the captured cell
+				if ref, ok := b.(*Term); ok && ref.S == SRef {
+					if pt, ok := c.Fn.FreeVars[i].Type().Underlying().(*types.Pointer); ok {
+						cs = append(cs, eqValue(ev.cur.load(ref, pt.Elem()), want))
+						continue
+					}
+				}
+				cs = append(cs, eqValue(b, want))
+			}
+			alts = append(alts, And(cs...))
+		}
+		return SVal{V: Or(alts...), T: boolT}
+	case "strslice": // strslice(base, len): a []string value
+		b := ev.term(e.Args[0])
+		n := ev.term(e.Args[1])
+		return SVal{V: SliceV{b, n}, T: types.NewSlice(strT)}
 	case "select": // select(ghostArray, i)
 		a := ev.term(e.Args[0])
 		i := ev.term(e.Args[1])
